@@ -42,7 +42,9 @@ RULE = ("fn: generated source for signatures of 0-5 parameters (defaults on a su
         "violating hints, repeated calls); transformers of size 0-6 plus 11, 12 and one size in 20..25 "
         "(two-digit channel indices, distinct value per position); dataclass layouts (required/default/"
         "factory, plain or postponed annotations); hand-written `class f(Function)` / `class f(B)` hierarchies "
-        "(derived class overriding node_function, base used before or after it); several transformer nodes "
+        "(derived class overriding node_function, base used before or after it); function objects made by calling ONE generated "
+        "factory def several times (same code object, own defaults and closure value), the earlier ones "
+        "wrapped first through the same entry point; several transformer nodes "
         "made in one process from permuted inputs-to-dict specifications (name lists and full specs) or at "
         "neighbouring sizes, each checked against its own specification. Non-trivial = at least one step returns a value and the "
         "node has >=1 input; distinct = distinct case JSON")
@@ -259,6 +261,8 @@ def render_expr(e, indent):
         return [e[1]]
     if k == "c":
         return [lit_val(e[1])]
+    if k == "k":
+        return ["_off"]
     op, cl_ = ("(", ")") if k == "t" else ("[", "]")
     sep = SEPS[e[2] % len(SEPS)] if len(e) > 2 else ", "
     lines = [op]
@@ -317,6 +321,8 @@ def canonical_text(e):
         return e[1]
     if k == "c":
         return lit_val(e[1])
+    if k == "k":
+        return "_off"
     op, cl_ = ("(", ")") if k == "t" else ("[", "]")
     return op + ", ".join(canonical_text(x) for x in e[1]) + ("," if k == "t" and len(e[1]) == 1 else "") + cl_
 
@@ -348,13 +354,15 @@ def fn_source(case):
     """python source of the described function (named f) and the fragment lists per statement"""
     if case["via"] == "class":
         return class_source(case)
-    ps = []
+    ps, fac_args = [], []
     for p in case["params"]:
         t = p["name"]
         if p.get("ann") is not None:
             t += ": " + ann_src(p["ann"])
         if p.get("default") is not None:
-            t += (" = " if p.get("ann") is not None else "=") + lit_val(p["default"])
+            dflt = f"_d{len(fac_args)}" if case.get("factory") else lit_val(p["default"])
+            fac_args.append(lit_val(p["default"]))
+            t += (" = " if p.get("ann") is not None else "=") + dflt
         ps.append(t)
     ret = ""
     if case.get("ret") is not None:
@@ -385,6 +393,18 @@ def fn_source(case):
         lines, fr = render_stmt(s, 8 if guarded else 4)
         body.extend(lines)
         frags.append(fr)
+    if case.get("factory"):
+        # ONE def statement executed several times: function objects sharing a code object, with their own
+        # defaults (`_d0`, ...) and closure cell (`_off`); f is the last one, the others come first
+        fac = case["factory"]
+        k = max(i for i, l in enumerate(head) if l == "") + 1
+        inner = ["    " + l if l else l for l in head[k:] + body]
+        formals = ", ".join([f"_d{i}" for i in range(len(fac_args))] + ["_off"])
+        calls = ["_make(" + ", ".join([lit_val(v) for v in pr["defaults"]] + [lit_val(pr["off"])]) + ")"
+                 for pr in fac["prior"]]
+        tail = ["    return f", "", "", "_prior = [" + ", ".join(calls) + "]",
+                "f = _make(" + ", ".join(fac_args + [lit_val(fac["off"])]) + ")"]
+        return "\n".join(head[:k] + [f"def _make({formals}):"] + inner + tail) + "\n", frags
     if case.get("nested"):
         # the same definition inside a function scope: __qualname__ ("_outer.<locals>.f") differs from __name__
         k = max(i for i, l in enumerate(head) if l == "") + 1
@@ -502,6 +522,27 @@ def fn_objects(case):
     labels = case["declared"] or []
     kwargs = {} if case["validate"] else {"validate_output_labels": False}
 
+    class WrappedOtherFunction(Exception):
+        pass
+
+    def wrap_priors(how):
+        from pyiron_workflow.nodes.function import to_function_node
+        for pf in getattr(load_module(src), "_prior", []):
+            try:
+                if how == "function_node":
+                    function_node(pf, output_labels=tuple(labels) or None, **kwargs).recovery = None
+                elif how == "to":
+                    to_function_node("f", pf, *labels, **kwargs)
+                else:
+                    as_function_node(*labels, **kwargs)(pf)
+            except Exception:
+                pass
+
+    def same_function(cls):
+        if cls.node_function is not load_module(src).f:
+            raise WrappedOtherFunction()
+        return cls
+
     if case["via"] == "at":
         def make_class():
             return load_module(src).f
@@ -518,14 +559,21 @@ def fn_objects(case):
     elif case["via"] == "to":
         def make_class():
             from pyiron_workflow.nodes.function import to_function_node
-            return to_function_node("f", load_module(src).f, *labels, **kwargs)
+            wrap_priors("to")
+            return same_function(to_function_node("f", load_module(src).f, *labels, **kwargs))
     else:
         def make_class():
-            return as_function_node(*labels, **kwargs)(load_module(src).f)
+            wrap_priors("call")
+            return same_function(as_function_node(*labels, **kwargs)(load_module(src).f))
 
     if case["via"] == "function_node":
         def make_instance(cls, pos, kw):
-            return function_node(load_module(src).f, *pos, output_labels=tuple(labels) or None, **kwargs, **kw)
+            from pyiron_workflow.nodes.function import function_node_factory
+            function_node_factory.clear()          # forget the class made for the class-level observation
+            wrap_priors("function_node")
+            n = function_node(load_module(src).f, *pos, output_labels=tuple(labels) or None, **kwargs, **kw)
+            same_function(type(n))                 # the node wraps the function it was given
+            return n
     else:
         def make_instance(cls, pos, kw):
             return cls(*pos, **kw)
@@ -599,8 +647,9 @@ def _clear_registries():
     """every case starts from empty transformer class registries, so that it does not depend on the cases
     that ran before it in this process (inputs_to_dict names its classes by a hash of the specification)"""
     from pyiron_workflow.nodes import transform as T
+    from pyiron_workflow.nodes.function import function_node_factory
     for fac in (T.inputs_to_dict_factory, T.inputs_to_list_factory, T.list_to_outputs_factory,
-                T.inputs_to_dataframe_factory):
+                T.inputs_to_dataframe_factory, function_node_factory):
         fac.clear()
 
 
@@ -628,7 +677,7 @@ def expr_coq(e):
     k = e[0]
     if k == "p":
         return f"(EParam {cs(e[1])})"
-    if k == "c":
+    if k in ("c", "k"):       # a closure cell is a constant of the function object that is wrapped
         return f"(EConst {val_coq(e[1])})"
     return f"({'ETup' if k == 't' else 'ELst'} {cl(expr_coq(x) for x in e[1])})"
 
@@ -1186,7 +1235,7 @@ def gen_stmt(rng, params):
 
 
 def static_atoms(e, params):
-    if e[0] == "c":
+    if e[0] in ("c", "k"):
         return [{"i": "int", "s": "str", "n": "NoneType"}[e[1][0]]]
     if e[0] == "p":
         for p in params:
@@ -1260,6 +1309,46 @@ def gen_fn(rng, ctx=None):
     case["ops"] = gen_ops(rng, [p["name"] for p in params], {p["name"]: atoms_of(p.get("ann")) for p in params},
                           [p["name"] for p in params if p["default"] is None])
     return case
+
+
+def gen_fn_factory(rng):
+    """the definition sits in a factory `def _make(_d0, .., _off): def f(..., p=_d0): ... _off ...; return f`
+    that is called several times: function objects with ONE code object, their own defaults and closure
+    value; the earlier ones are wrapped first through the same entry point with the same options"""
+    d = gen_fn(rng)
+    while not any(p_["default"] is not None for p_ in d["params"]) and rng.random() < 0.8:
+        d = gen_fn(rng)
+    d["via"] = rng.choice(["function_node", "function_node", "call", "to"])
+    d.pop("nested", None)
+    off = ["i", rng.choice([50, 60, 70])]
+
+    def close(e):
+        if e[0] == "c" and e[1][0] == "i" and rng.random() < 0.7:
+            return ["k", off]
+        if e[0] in ("t", "l"):
+            return [e[0], [close(x) for x in e[1]]] + e[2:]
+        return e
+    body = []
+    for st in d["body"]:
+        if st[0] == "single" and st[1] != ["c", ["n"]]:
+            body.append(["single", close(st[1])])
+        elif st[0] == "tuple":
+            body.append(["tuple", [close(x) for x in st[1]]] + st[2:])
+        else:
+            body.append(st)
+    d["body"] = body
+
+    def vary(v, j):
+        if v[0] == "i":
+            return ["i", v[1] + 40 * (j + 1)]
+        if v[0] == "s":
+            return ["s", v[1] + "z" * (j + 1)]
+        return v
+    dfl = [p_["default"] for p_ in d["params"] if p_["default"] is not None]
+    d["factory"] = {"off": off,
+                    "prior": [{"defaults": [vary(v, j) for v in dfl], "off": ["i", off[1] + 1 + j]}
+                              for j in range(rng.choice([1, 1, 2]))]}
+    return d
 
 
 def gen_fn_class(rng):
@@ -1629,6 +1718,19 @@ def generate(ctx):
                 return {"kind": "todict", "spec": spec_(q), "via": "function",
                         "ops": [[[["i", 10 * (names_.index(nm) + 1)] for nm in q], []], [[], []]]}
             add({"kind": "multi", "via": "multi", "cases": [sub_(names_), sub_(perm), sub_(names_)]})
+    # one def executed several times (function factory): each node wraps the function object it is given
+    for via_ in ("function_node", "call", "to"):
+        for dec_ in (None, ["out", "off"]):
+            add({"kind": "fn", "params": [{"name": "x", "ann": None, "default": None},
+                                          {"name": "y", "ann": None, "default": ["i", 3]}],
+                 "body": [["tuple", [["p", "y"], ["k", ["i", 20]]], 0]], "ret": None, "declared": dec_,
+                 "validate": True, "via": via_, "postponed": False,
+                 "factory": {"off": ["i", 20], "prior": [{"defaults": [["i", 2]], "off": ["i", 10]}]},
+                 "ops": [[[["i", 1]], []], [[], []], [[], [["y", ["i", 5]]]]]})
+    n_fac = ctx.n(90, 1000)
+    target = len(cases) + n_fac
+    while len(cases) < target:
+        add(gen_fn_factory(rng))
     n_cls = ctx.n(150, 1800)
     n_multi = ctx.n(60, 700)
     target = len(cases) + n_cls
